@@ -145,19 +145,42 @@ class Interp:
                      and norm(n.func.value) == 'self'}
             if self.advance_m in calls and len(m.params()) >= 2:
                 self.expect_m = name
+        # combinators proper consume tokens (directly or through other methods); a method that returns a pair without
+        # consuming anything is a plain helper and is interpreted in place
+        consumes = {self.advance_m, self.expect_m}
+        changed = True
+        while changed:
+            changed = False
+            for name, m in self.methods.items():
+                if name in consumes:
+                    continue
+                for n in walk_own(m.node):
+                    if isinstance(n, ast.Call) and isinstance(n.func, ast.Attribute) and norm(n.func.value) == 'self' \
+                            and n.func.attr in consumes:
+                        consumes.add(name)
+                        changed = True
+                        break
+        self.helpers = {n for n in self.combinators if n not in consumes}
+        self.combinators -= self.helpers
         if not (self.advance_m and self.error_m and self.expect_m):
             raise AnalysisError('GEN-5: token helpers of GrammarParser not recognised (advance=%s expect=%s error=%s)'
                                 % (self.advance_m, self.expect_m, self.error_m))
 
     # -- values -------------------------------------------------------------------------------------------------
-    def const_of(self, e):
+    def const_of(self, e, depth=0):
         """python constant, 'TT.X' for PythonTokenTypes.X, tuple of those; else None"""
         if isinstance(e, ast.Constant) and isinstance(e.value, str):
             return e.value
+        if isinstance(e, ast.Name) and depth < 3:
+            # a module-level constant
+            vals = [v for v in self.cls.mod.globals.get(e.id, []) or [] if v is not None]
+            if len(vals) == 1 and not isinstance(vals[0], (ast.FunctionDef, ast.ClassDef)):
+                return self.const_of(vals[0], depth + 1)
+            return None
         if isinstance(e, ast.Attribute) and norm(e.value) == 'PythonTokenTypes':
             return 'TT.' + e.attr
         if isinstance(e, (ast.Tuple, ast.List, ast.Set)):
-            out = [self.const_of(x) for x in e.elts]
+            out = [self.const_of(x, depth) for x in e.elts]
             if all(o is not None for o in out):
                 return tuple(out)
         return None
@@ -167,6 +190,9 @@ class Interp:
         if isinstance(e, ast.Name):
             if e.id in p.env:
                 return [(p.env[e.id], p)]
+            c = self.const_of(e)
+            if c is not None:
+                return [(('const', c), p)]
             return [(('unknown',), p)]
         c = self.const_of(e)
         if c is not None:
@@ -237,7 +263,8 @@ class Interp:
                 p.advance()
                 return [(('unknown',), p)]
             target = self.methods.get(name)
-            if target is not None and (e.args or e.keywords) and name not in (self.advance_m, self.error_m, self.expect_m):
+            if target is not None and (e.args or e.keywords or name in self.helpers) \
+                    and name not in (self.advance_m, self.error_m, self.expect_m) and name not in self.combinators:
                 # a helper that is handed states: interpreted in place with its parameters bound
                 return self.inline(target, e, p)
             if name in self.combinators:
@@ -335,6 +362,13 @@ class Interp:
                 outs = nxt
             result += [(is_and, q) for _, q in outs]
             return result
+        if isinstance(test, ast.Call) and isinstance(test.func, ast.Attribute) and norm(test.func.value) == 'self' \
+                and not test.args and not test.keywords and test.func.attr in self.methods:
+            # a predicate method: `return EXPR`
+            m = self.methods[test.func.attr]
+            body = [st for st in m.node.body if not (isinstance(st, ast.Expr) and isinstance(st.value, ast.Constant))]
+            if len(body) == 1 and isinstance(body[0], ast.Return) and body[0].value is not None:
+                return self.branch(body[0].value, p)
         if isinstance(test, ast.Compare) and len(test.ops) == 1:
             op = test.ops[0]
             (lv, p), = self.eval(test.left, p)
